@@ -25,6 +25,8 @@ DECIDED = ('(a) on every path of Ombott.wsgi to a return, start_response is call
            '_closeiter.close calls the callbacks and _closeiter.__iter__ only iterates (does not close).')
 DECIDED_MORE = ('Also: every iter()/next() of the handler iterable in _cast is inside the converting try; a textual status becomes the status line only through the separator test; the slice iterator of static_file delivers what its Content-Length announces.')
 DECIDED = DECIDED + ' ' + DECIDED_MORE
+DECIDED_R6 = ('Round 6: exactly 1xx/204/304 lose their body by status; emit iterates a snapshot; pair-level transcoding of every emitted header value; range-parser clauses of C17 under e; type-aware flow of the peeked item in _cast.')
+DECIDED = DECIDED + ' ' + DECIDED_R6
 NOT_DECIDED = ('header-list well-formedness beyond C14; close-exactly-once at run time for arbitrary servers; custom error '
                'handlers; behaviour after the first body chunk; the open set of handler programs.')
 ASSUMPTIONS = ['the server calls close() on the returned iterable once (PEP 3333)', 'start_response itself may raise: then the handler\'s call carries exc_info']
